@@ -50,7 +50,7 @@ Qed.
 
 Section Doc.
 Variable tbl : list lang.
-Hypothesis Hwv : typed_wv_agree.
+Hypothesis Hwv : forall l, In l tbl -> wv_premise l.
 Hypothesis Hdt : typed_datetime_agree.
 
 Lemma pis_loop_ok l tb ver cs (Hcs : cs_ok cs) pis : forall dst evs dst' fuel r,
@@ -93,6 +93,14 @@ Proof.
     destruct ((c =? 3) || (c =? 106)) eqn:E; [|discriminate]. injection H as <-. right. split; [reflexivity|lia].
 Qed.
 
+Lemma lang_of_pub_In tb p l : lang_of_pub tbl tb p = Some l -> In l tbl.
+Proof.
+  unfold lang_of_pub. destruct p as [n|i].
+  - destruct ((n =? 1) || negb (u32_okb n) || (n =? 0)); [discriminate|]. intros H. apply find_some in H. tauto.
+  - destruct (u32_okb i && negb (i =? 4294967295)); [|discriminate].
+    destruct (str_at tb i); [|discriminate]. intros H. apply find_some in H. tauto.
+Qed.
+
 Theorem parse_denote (d : wdoc) (evs : list event) :
   denote tbl d = Some evs ->
   parse tbl (S (length (serialize d))) (serialize d) = POk evs.
@@ -104,6 +112,7 @@ Proof.
   destruct (charset_of d) as [cs|] eqn:Ecs; [|discriminate].
   pose proof (charset_of_ok d cs Ecs) as Hcs.
   destruct (lang_of_pub tbl (wd_strtbl d) (wd_pub d)) as [l|] eqn:El; [|discriminate].
+  pose proof (Hwv l (lang_of_pub_In _ _ _ El)) as Hwvl.
   destruct (wd_root d) as [sw tag attrs hasc items|s|p] eqn:Eroot; try discriminate.
   set (denv := mk_denv l (wd_strtbl d)) in *.
   destruct (den_pis denv (wd_pis_before d) (mk_dstate 0 0 None)) as [[e1 st1]|] eqn:E1; [|discriminate].
@@ -132,7 +141,7 @@ Proof.
       rewrite Eb. cbn [is_token]. exact B67. }
     rewrite (pis_loop_ok l (wd_strtbl d) (wd_ver d) cs Hcs (wd_pis_before d) _ e1 st1 fuel _ E1 (Hroot67 _)) by lia.
     unfold parse_element.
-    rewrite (element_ok l (wd_strtbl d) (wd_ver d) cs Hcs Hwv Hdt sw tag attrs hasc items 0 None st1 e2 st2 fuel _ E2) by lia.
+    rewrite (element_ok l (wd_strtbl d) (wd_ver d) cs Hcs Hwvl Hdt sw tag attrs hasc items 0 None st1 e2 st2 fuel _ E2) by lia.
     rewrite <- (app_nil_r (flat_map ser_pi (wd_pis_after d))).
     rewrite (pis_loop_ok l (wd_strtbl d) (wd_ver d) cs Hcs (wd_pis_after d) st2 e3 st3 fuel [] E3 eq_refl) by lia.
     reflexivity. }
